@@ -62,7 +62,7 @@ def monitor(case, obs):
                 return f"C{u} was advanced to {newt}, announced {sc.next_time_of(case, u, cnt, times)}"
         else:
             _, c, i, t, seen, (exp, buf, cut), tr = item
-            if seen is None:
+            if seen is None or sc.is_static_src(comps, comps[c]["inputs"][i]["src"]):
                 continue
             if seen[3] != exp:
                 return (f"link C{c}.i{i} (chain {comps[c]['inputs'][i]['chain']}): request for {t} reached the "
